@@ -175,6 +175,20 @@ def call_solve(op, rhs, left, via):
     raise ValueError(via)
 
 
+def run_query(op, query):
+    """a query that fills the parent's caches (Cholesky / capacitance factor, preconditioner, eigen-decompositions)"""
+    g = torch.Generator().manual_seed(1)
+    r0 = torch.randn(*op.shape[:-1], 2, dtype=op.dtype, generator=g)
+    if query == "solve":
+        op.solve(r0)
+    elif query == "logdet":
+        op.logdet()
+    elif query == "inv_quad_logdet":
+        op.inv_quad_logdet(r0, logdet=True)
+    else:
+        raise ValueError(query)
+
+
 def observe(spec, rhs, left, st, via="solve", fwd_rhs=None):
     """run the real solve; returns dict(out | exc, events, warn).
     via = "backward": `fwd_rhs` is the right-hand side of the forward solve and `rhs` the upstream gradient; the
@@ -199,7 +213,22 @@ def observe(spec, rhs, left, st, via="solve", fwd_rhs=None):
         with settings_ctx(st), warnings.catch_warnings(record=True) as w:
             warnings.simplefilter("always")
             try:
-                op = ops.build(spec)
+                if spec["cls"] == "Derived":
+                    # a HISTORY: a query on the parent (fills its caches), then a public derivation, then the solve on the
+                    # derived operator; `fresh` = the same derivation of a parent that was never queried
+                    parent = ops.build(spec["base"])
+                    try:
+                        run_query(parent, spec["query"])
+                    except Exception as ex:  # noqa  (a failing query is not C04's business)
+                        res["query_exc"] = "%s: %s" % (type(ex).__name__, str(ex)[:120])
+                    op = ops.derive(parent, spec)
+                    try:
+                        fr = call_solve(ops.build(spec), rhs, left, via)
+                        res["fresh"] = fr.detach() if torch.is_tensor(fr) else fr
+                    except Exception as ex:  # noqa
+                        res["fresh_exc"] = "%s: %s" % (type(ex).__name__, str(ex)[:120])
+                else:
+                    op = ops.build(spec)
                 # (building a factor operator runs cholesky(): those events are not part of the solve)
                 n0, c0 = len(cap.msgs), len(cgcalls)
                 if via == "backward":
@@ -274,6 +303,22 @@ def class_configs(quick):
     C.append(("Kron", {"sizes": (2, 3), "fcls": ["Dense", "Diag"]}, 6))
     C.append(("Kron", {"sizes": (3, 2), "fcls": ["Diag", "Toeplitz"]}, 6))
     C.append(("Kron", {"sizes": (2, 2), "fcls": ["Chol", "Dense"], "fkw": {"upper": False}}, 4))
+    # factors of the special classes (Identity, ConstantDiag, Diag) in EVERY position
+    for sizes, fcls in [((2, 3), ["Identity", "Dense"]), ((3, 2), ["Dense", "Identity"]), ((2, 2, 2), ["Dense", "Identity", "Dense"]),
+                        ((2, 3), ["ConstantDiag", "Dense"]), ((3, 2), ["Dense", "ConstantDiag"]), ((2, 2, 2), ["Identity", "Dense", "Diag"]),
+                        ((2, 3), ["Identity", "Identity"]), ((2, 2, 2), ["Dense", "Dense", "Identity"])]:
+        C.append(("Kron", {"sizes": sizes, "fcls": fcls}, int(math.prod(sizes))))
+    C.append(("KronAddedDiag", {"sizes": (2, 3), "dk": "const", "fcls": ["Identity", "Dense"]}, 6))
+    C.append(("KronAddedDiag", {"sizes": (3, 2), "dk": "const", "fcls": ["Dense", "Identity"]}, 6))
+    C.append(("KronAddedDiag", {"sizes": (2, 3), "dk": "general", "fcls": ["Dense", "Diag"]}, 6))
+    C.append(("SumKron", {"sizes": (2, 3), "fcls1": ["Identity", "Dense"]}, 6))
+    C.append(("SumKron", {"sizes": (3, 2), "fcls2": ["Dense", "Identity"]}, 6))
+    C.append(("SumKron", {"sizes": (2, 3), "fcls1": ["Dense", "Diag"], "fcls2": ["ConstantDiag", "Dense"]}, 6))
+    # Cholesky-factor operators after a public rewrite (scalar multiple, + Diag, add_diagonal): the triangular factor wraps
+    # non-dense data and TriangularLinearOperator._cholesky_solve takes its fall-back; both orientations
+    for up in (False, True):
+        for rw in ("mul", "adddiag", "add_diagonal"):
+            C.append(("CholRw", {"upper": up, "rw": rw}, 3 if rw != "mul" else 4))
     for sizes in [(2, 3), (3, 3), (2, 2, 2)]:
         C.append(("KronAddedDiag", {"sizes": sizes, "dk": "const"}, int(math.prod(sizes))))
     C.append(("KronAddedDiag", {"sizes": (2, 3), "dk": "general"}, 6))
@@ -299,7 +344,7 @@ def class_configs(quick):
 
 
 OWN_SOLVE = {"Diag", "ConstantDiag", "Identity", "Chol", "CholInverse", "CholDiag", "Tri", "TriPlusDiag", "TriRepeat", "LowRankRootAddedDiag",
-             "CholOf", "FactorTri"}
+             "CholOf", "FactorTri", "CholRw"}
 NOT_SYMMETRIC = {"Tri", "TriPlusDiag", "TriRepeat", "FactorTri", "Permutation", "CholInverse"}
 NOT_PD_NEEDS_BRANCH3 = {"Permutation"}
 RHS_KINDS = ["vec", "mat", "bat", "bcast", "left", "leftvec", "leftbat"]
@@ -309,7 +354,7 @@ KAPPAS = [1e0, 1e2, 1e4, 1e6]
 def total_size(cls, kw, n):
     if cls in ("BlockDiag", "BlockInterleaved"):
         return n * kw["blocks"]
-    if cls in ("CholOf", "FactorTri"):
+    if cls in ("CholOf", "FactorTri", "Derived"):
         return total_size(kw["base"], kw.get("base_kw", {}), n)
     return n
 
@@ -572,6 +617,37 @@ def family_cells(ctx, rng, configs):
                         if cls not in NOT_SYMMETRIC and not (cls == "BatchRepeat" and kind == "mat"):
                             add("rhs", cls, kw, n, ob, kind, st, KAPPAS[(ci + mi) % 3], via="backward", rhsmod=mod)
     out += threshold_cells(ctx, d, base, CG)
+    out += history_cells(ctx, d, base, CG)
+    return out
+
+
+# (e) histories.  Classes with ad-hoc caches (LowRankRootAddedDiag chol_cap_mat, AddedDiag preconditioner, Kron / KronAddedDiag
+#     eigen-decompositions, cholesky / root caches of every class): a query on the PARENT, then every public derivation, then the
+#     solve on the derived operator - against the dense oracle of the derived matrix and against the same derivation of a
+#     never-queried parent.
+HIST_CONFIGS = [
+    ("LowRankRootAddedDiag", {"rank": 2}, 5), ("LowRankRootAddedDiag", {"rank": 1}, 4), ("AddedDiag", {}, 6), ("Dense", {}, 5),
+    ("Kron", {"sizes": (2, 3)}, 6), ("KronAddedDiag", {"sizes": (2, 3), "dk": "const"}, 6), ("KronAddedDiag", {"sizes": (3, 2), "dk": "kdiag"}, 6),
+    ("SumKron", {"sizes": (2, 3)}, 6), ("BlockDiag", {"blocks": 2}, 3), ("Diag", {}, 4), ("Chol", {"upper": True}, 3),
+]
+QUERIES = ["solve", "logdet", "inv_quad_logdet"]
+DERIVES = ["adddiag", "add_diagonal", "jitter", "mul", "expand", "getitem", "mT"]
+
+
+def history_cells(ctx, d, base, CG):
+    out = []
+    for ci, (cls, kw, n) in enumerate(HIST_CONFIGS):
+        N = total_size(cls, kw, n)
+        ms = max(kw["sizes"]) if "sizes" in kw else N
+        paths = [dict(base), dict(base, mcs=ms if ms < N else 0, cgtol=1e-4, mps=5, minps=0)]
+        for di, dv in enumerate(DERIVES):
+            ob = (2,) if dv == "getitem" else ()
+            for qi in range(2 if ctx.quick else 3):
+                q = QUERIES[(ci + di + qi) % 3]
+                st = paths[(di + qi) % 2]
+                for kind in (("mat",) if ctx.quick else ("mat", "left")):
+                    out.append(dict(cls="Derived", kw={"base": cls, "base_kw": kw, "derive": dv, "query": q}, n=n, N=N, ob=ob, kind=kind,
+                                    st=dict(st), kappa=KAPPAS[(ci + di) % 3], dtype="f64", fam="history", via="solve"))
     return out
 
 
@@ -734,6 +810,15 @@ def predicate(cell, spec, rhs, left, obs):
     if not torch.is_tensor(out2) or out2.shape != out.shape or \
             (out2 - out).abs().max().item() > cell_tol(cell, obs["events"]) * max(1.0, out.abs().max().item()):
         return ("repeat", "a second solve on the same object returns a different answer")
+    if spec["cls"] == "Derived" and not any(e[0] == "cg" for e in obs["events"]):
+        # the derived operator must answer like the same derivation of a never-queried parent
+        if "fresh_exc" in obs:
+            return ("history", "the derivation of a fresh parent raises: " + obs["fresh_exc"])
+        fr = obs["fresh"].to(F64)
+        dd = (out - fr).abs().max().item() / max(1.0, fr.abs().max().item()) if fr.shape == out.shape else float("inf")
+        if not dd <= 2 * cell_tol(cell, obs["events"]):
+            return ("history", "solve on the operator derived AFTER a %s on its parent differs from the same derivation of a fresh "
+                               "parent by %.3e" % (spec["query"], dd))
     if "fwd" in obs:
         # backward pass: the forward result is judged too (value on direct paths)
         fr = reference(spec, cell["fwd_rhs"], None)
@@ -944,6 +1029,9 @@ def key_of(cell, spec, obs, fail):
     if isinstance(spec.get("base"), dict):
         k["base"] = spec["base"]["cls"]
     k["linalg_dtypes"] = "%s=%s" % tuple(cell["st"]["ldt"]) if cell["st"].get("ldt") else None
+    if spec["cls"] == "Derived":
+        k["derive"], k["query"], k["base_tree"] = spec["derive"], spec["query"], ops.label(spec["base"])
+        k["structured_path"] = bool(cell["st"]["fast"] and cell["N"] > cell["st"]["mcs"])
     if cell["cls"] in ("KronAddedDiag", "SumKron"):
         k["diag_kind"] = cell["kw"].get("dk") if isinstance(cell.get("kw"), dict) else None
         # the structured branch with a factor larger than max_cholesky_size (its diagonalization() then runs Lanczos)
@@ -1102,6 +1190,8 @@ def run(ctx):
         lit = None
         if "exc" in obs:
             stats["raised"] += 1
+        elif spec["cls"] == "Derived":
+            lit = None        # histories are judged by the predicate only (the derived operator's class is the library's choice)
         elif f is None or f[0] in ("value", "residual"):
             lit = case_lit(cell, spec, rhs, left, obs)      # (wrong shape / dtype / type: no Coq case, the predicate already failed)
         if f:
